@@ -13,7 +13,8 @@ RULE = (
     "for all five ABIs (x86-64 ELF/PE, IA32 PE, ARM64 ELF, MIPS32 ELF): "
     "every singleton and pair of clobbered registers x clobbers_flags x "
     "align_stack x leaf (exhaustive sub-space) and random larger subsets x "
-    "preserve_caller_saved x scratch 0..max+1 x reads subsets; each "
+    "preserve_caller_saved x scratch 0..max+1 x reads subsets (named by any of "
+    "the register's sub-register names); each "
     "configuration is executed from random register files, a random flags "
     "value and initial stack pointers at every residue the ABI allows; the "
     "body overwrites every declared resource and the stack below it. Judged "
